@@ -25,7 +25,6 @@ from .exceptions import BadInputError
 
 import operator
 from functools import lru_cache
-from math import floor
 
 
 _operator_map = {op.__name__: op for op in [
@@ -325,8 +324,12 @@ class TimeRecurrence:
                 iterations, seconds_since = divmod(
                     (timepoint - self._start_point).get_seconds(),
                     self._duration.get_seconds())
+                # seconds_since is how far timepoint lies past the member at
+                # or before it: keep its sub-second part (decimal seconds in
+                # the start point or the duration), or the result is not on
+                # the series.
                 next_timepoint = timepoint + (self._duration - Duration(
-                    seconds=floor(seconds_since)))
+                    seconds=seconds_since))
                 if self._get_is_in_bounds(next_timepoint):
                     return next_timepoint
                 return None
